@@ -1,6 +1,12 @@
 package harness
 
-import "testing"
+import (
+	"testing"
+	"testing/synctest"
+	"time"
+
+	ml "github.com/hashicorp/memberlist"
+)
 
 // C01: exhaustive prior x claim table for a non-local member plus random histories.
 func TestC01(t *testing.T) {
@@ -10,4 +16,41 @@ func TestC01(t *testing.T) {
 		n = envInt("VERIF_N", 60000)
 	}
 	forCases(n, 101, "h", func(i int, r *rng, id string) { randomHistory("C01", r, id, 1, 30) })
+	forCases(n/10, 103, "n", func(i int, r *rng, id string) { rrsLeg("C01", r, id) })
+	forCases(n/30+4, 104, "p", func(i int, r *rng, id string) {
+		synctest.Test(t, func(t *testing.T) { c01Probe(r, id) })
+	})
+}
+
+// c01Probe: the failure detector's own verdict is a claim about the incarnation it pinged. A probe of
+// T at incarnation N goes unanswered; while it is outstanding a newer alive claim (N+1) about T is
+// accepted. The verdict that follows is about N and must not override the newer knowledge.
+func c01Probe(r *rng, id string) {
+	n, err := newC19(r.intn(2), "off", 8)
+	if err != nil {
+		return
+	}
+	m := n.m
+	inc := uint32(1 + r.intn(5))
+	vsn := []uint8{1, 5, 2, 0, 0, 0}
+	ml.VerifAliveNode(m, inc, "T", []byte{10, 0, 0, 1}, 7946, nil, vsn, nil, false)
+	bump := r.chance(2, 3)
+	done := make(chan struct{})
+	go func() { ml.VerifProbe(m); close(done) }()
+	synctest.Wait()
+	time.Sleep(time.Duration(1+r.intn(400)) * time.Millisecond)
+	if bump {
+		ml.VerifAliveNode(m, inc+1, "T", []byte{10, 0, 0, 1}, 7946, []byte("newer"), vsn, nil, false)
+	}
+	<-done
+	time.Sleep(100 * time.Millisecond)
+	synctest.Wait()
+	st, got := "?", uint32(0)
+	for _, nd := range ml.VerifSnapshotState(m).Nodes {
+		if nd.Name == "T" {
+			st, got = stLetter[nd.State], nd.Incarnation
+		}
+	}
+	emit("C01 probe id=%s bump=%d inc=%d state=%s got=%d", id, b2i(bump), inc, st, got)
+	m.Shutdown()
 }
